@@ -225,20 +225,29 @@ def loader_validations():
     """the guards in front of the unchecked / parallel-array reads of the schedule and node loaders, as normalised disjuncts:
     a trip record is skipped (`continue`) when one holds; a node file is refused (`return -EBADMSG`) when one holds"""
     t = strip_comments(src("src/trips_and_connections_cache_fetcher.cpp"))
-    m = re.search(r"const\s+unsigned\s+long\s+tripNodeTimesCount\s*=\s*capnpTrip\.getNodeArrivalTimesSeconds\(\)\.size\(\)\s*;\s*if\s*\(([^;{]*?)\)\s*\{\s*spdlog::error\([^;]*\)\s*;\s*continue\s*;\s*\}", t, re.S)
-    if not m: raise ValueError("trip validation guard not recognised")
-    trip = _disjuncts(m.group(1))
+    # locals bound once to a reader of the trip record are inlined, so that reading a list once into a local (as the loader does
+    # since d389688) or at every use gives the same normalised guard
+    aliases = dict(re.findall(r"auto\s+(\w+)\s*=\s*(capnpTrip\.get\w+\(\))\s*;", t))
+    def inl(e):
+        for k, v in aliases.items():
+            e = re.sub(r"\b%s\b" % re.escape(k), v, e)
+        return e
+    m = re.search(r"const\s+unsigned\s+long\s+tripNodeTimesCount\s*=\s*([\w\.\(\)]+?)\.size\(\)\s*;\s*if\s*\(([^;{]*?)\)\s*\{\s*spdlog::error\([^;]*\)\s*;\s*continue\s*;\s*\}", t, re.S)
+    if not m or inl(m.group(1)) != "capnpTrip.getNodeArrivalTimesSeconds()": raise ValueError("trip validation guard not recognised")
+    trip = _disjuncts(inl(m.group(2)))
     # the guard must come before the first use of nodesRef[...] and before trips.emplace
     if not (m.end() < t.index("trips.emplace") and m.end() < t.index("path.nodesRef[")): raise ValueError("trip validation does not precede the indexing")
     # loop bound of the connection loop and the indexes it reads
-    lb = re.search(r"nodeTimesCount\s*=\s*capnpTrip\.getNodeArrivalTimesSeconds\(\)\.size\(\)\s*;", t)
+    lb = re.search(r"nodeTimesCount\s*=\s*([\w\.\(\)]+?)\s*;", t)
+    if lb and not (lb.group(1) == "tripNodeTimesCount" or inl(lb.group(1)) == "capnpTrip.getNodeArrivalTimesSeconds().size()"): lb = None
     lp = re.search(r"for\s*\(\s*unsigned\s+long\s+nodeTimeI\s*=\s*0\s*;\s*nodeTimeI\s*<\s*nodeTimesCount\s*-\s*1\s*;\s*nodeTimeI\+\+\s*\)", t)
     if not (lb and lp): raise ValueError("connection loop bound not recognised")
     args = re.search(r"connections\.push_back\(Connection\((.*?)\)\);", t, re.S)
     if not args: raise ValueError("Connection construction not recognised")
     conn = [re.sub(r"\s+", " ", a.strip()) for a in args.group(1).split(",\n")]
-    back = re.search(r"if\s*\(\s*capnpTrip\.getNodeArrivalTimesSeconds\(\)\[nodeTimeI \+ 1\]\s*<\s*capnpTrip\.getNodeDepartureTimesSeconds\(\)\[nodeTimeI\]\s*\)", t)
-    if not back: raise ValueError("backwards-hop test not recognised")
+    back = re.search(r"if\s*\(\s*([\w\.\(\)]+?)\[nodeTimeI \+ 1\]\s*<\s*([\w\.\(\)]+?)\[nodeTimeI\]\s*\)", t)
+    if not back or inl(back.group(1)) != "capnpTrip.getNodeArrivalTimesSeconds()" or inl(back.group(2)) != "capnpTrip.getNodeDepartureTimesSeconds()":
+        raise ValueError("backwards-hop test not recognised")
     n = strip_comments(src("src/nodes_cache_fetcher.cpp"))
     m2 = re.search(r"transferableNodesCount\s*\{\s*capnpT\.getTransferableNodesUuids\(\)\.size\(\)\s*\}\s*;\s*if\s*\(([^;{]*?)\)\s*\{\s*spdlog::error\([^;]*\)\s*;\s*close\(fd\)\s*;\s*return\s+-EBADMSG\s*;\s*\}", n, re.S)
     if not m2: raise ValueError("node file size guard not recognised")
